@@ -160,6 +160,9 @@ Qed.
 Lemma is_tchar_case b : is_tchar (lower_byte b) = is_tchar b /\ is_tchar (upper_byte b) = is_tchar b.
 Proof. destruct b; vm_compute; split; reflexivity. Qed.
 
+Lemma upper_of_lower b : upper_byte (lower_byte b) = upper_byte b.
+Proof. destruct b; vm_compute; reflexivity. Qed.
+
 Lemma canon_go_case_insensitive s : forall t u,
   to_lower s = to_lower t -> canon_go u s = canon_go u t.
 Proof.
@@ -167,7 +170,7 @@ Proof.
   change (to_lower (?x :: ?y)) with (lower_byte x :: to_lower y) in H.
   injection H as Hc Hs. cbn [canon_go].
   assert (E : (if u then upper_byte c else lower_byte c) = (if u then upper_byte d else lower_byte d)).
-  { destruct u; [|exact Hc]. revert Hc. clear. destruct c; destruct d; vm_compute; congruence. }
+  { destruct u; [|exact Hc]. rewrite <- (upper_of_lower c), <- (upper_of_lower d). now rewrite Hc. }
   rewrite E. f_equal. now apply IH.
 Qed.
 
